@@ -21,6 +21,7 @@ type world struct {
 	hasPred  bool
 	now      uint64 // current base time in ns
 	price    int64
+	alias    int // when non-zero: every stream s also exists as the different stream s+alias (same low bits)
 }
 
 var formatsPool = []uint32{1, 2, 4, 42}
@@ -50,6 +51,9 @@ func newWorld(g *G) *world {
 		w.now = uint64(g.R.Intn(5_000_000_000)) // near zero
 	}
 	w.price = int64(1000 + g.R.Intn(1000))
+	if g.R.Intn(8) == 0 {
+		w.alias = []int{1 << 8, 1 << 16, 1 << 24, 1 << 31}[g.R.Intn(4)]
+	}
 	return w
 }
 
@@ -62,12 +66,21 @@ func (w *world) rndChanDef() J {
 		if g.R.Intn(25) == 0 {
 			sid = 0 // the zero id is an ordinary id
 		}
+		if g.R.Intn(12) == 0 {
+			// ids that coincide with a small id once truncated or packed into fewer bits are different ids
+			sid += []int{1 << 8, 1 << 16, 1 << 24, 1 << 31}[g.R.Intn(4)]
+		}
 		agg := uint32(1 + g.R.Intn(3))
 		if g.R.Intn(40) == 0 {
 			// an aggregator value nobody implements passes validation (only 0 is refused): the round must fail cleanly
 			agg = []uint32{4, 5, 99, ^uint32(0)}[g.R.Intn(4)]
 		}
 		st[i] = J{"sid": S(sid), "agg": S(agg)}
+	}
+	if w.alias != 0 && g.R.Intn(2) == 0 {
+		// the twin of the first stream: a different stream whose id has the same low bits, same aggregator
+		first := st[0].(J)
+		st = append(st, J{"sid": S(jInt(first["sid"])%256 + w.alias), "agg": first["agg"]})
 	}
 	opts := ""
 	if g.R.Intn(2) == 0 {
@@ -284,7 +297,14 @@ func (w *world) round(p votePlan, streams []int) (obs []any, honest []any) {
 		}
 		o["updates"] = upd
 		vals := []any{}
-		for _, sid := range streams {
+		all := streams
+		if w.alias != 0 {
+			all = append([]int{}, streams...)
+			for _, sid := range streams {
+				all = append(all, sid%256+w.alias)
+			}
+		}
+		for _, sid := range all {
 			if g.R.Intn(10) == 0 {
 				continue // missing value
 			}
